@@ -249,7 +249,7 @@ type state struct {
 	lat      []int64             // per-event latency (ns), cycled: every I/O event moves the clock (a slow disk)
 	advance  func(time.Duration) // how the clock is moved
 	opens    map[string]int      // path -> number of open-for-reading events so far
-	curOrd   int            // open ordinal of the descriptor a read event goes through (-1: none)
+	curOrd   int                 // open ordinal of the descriptor a read event goes through (-1: none)
 }
 
 var st *state
